@@ -542,6 +542,18 @@ def run(chk):
             emitted = [ev for ev in events if ev[1] == "extend" and desc_contains(ev[2], lambda y: y[0] == "call" and len(y) > 3 and y[3] == blk)]
             after_marker = any(e.dominates(b1, blk) for b1, _ in byte[1]) or bool(stores.get(1))
             chk.ob("R2.encoder", enc[0], f"the {ty} length bytes are appended right after the marker byte", len(emitted) == 1 and after_marker, f"{len(emitted)} extend site(s)", where=e.where(blk))
+        # the masking key follows the header exactly when the MASK bit was set: its append is guarded by the `mask` field (the field the bit
+        # is built from) and by nothing else — a test on the key's value drops an all-zero key from a frame that still says MASK=1
+        fnames = [x["name"] for x in st]
+        mi_, mk_ = fnames.index("mask"), fnames.index("masking_key")
+        ksites = [ev for ev in events if desc_contains(ev[2], lambda y: y[0] == "field" and y[2] == mk_)]
+        chk.floor("masking-key append in the encoder", len(ksites), 1)
+        for ev in ksites:
+            gs_ = [(lab, panics._strip(d_)) for s_, lab, d_, info in core.guards_dominating(prog, e, ev[0]) if isinstance(d_, tuple)]
+            on_mask = [lab for lab, d_ in gs_ if d_[0] == "field" and d_[2] == mi_ and d_[1][0] == "param"]
+            on_key = [lab for lab, d_ in gs_ if desc_contains(d_, lambda y: y[0] == "field" and y[2] == mk_)]
+            chk.ob("R2.encoder", enc[0], "the masking key is appended exactly when the frame's mask flag is set", on_mask == ["true"] and not on_key,
+                   f"the key append is guarded by mask == {on_mask} and by {len(on_key)} test(s) of the key itself", where=e.where(ev[0]))
     # ---- R4 Message::to_frame
     tfm = prog.bodies.get("humphrey_ws::message::Message::to_frame")
     chk.floor("Message::to_frame", 1 if tfm else 0, 1)
